@@ -46,6 +46,25 @@ PROBES = {
                     "mw_python_fetch_language_names}) do for _, n in ipairs(names) do "
                     "local v = try(function() return h[n] end) if v ~= nil then hit = hit or ('ESCAPE:python-object:helper.' .. n) end end end "
                     "return hit or ('ok objs=' .. #objs)",
+    # two invocations: the first leaves placeholder globals named after host libraries wherever it can write (the base
+    # environment _lua_reset_env returns, its own environment, package.loaded); the second looks at what became of them
+    "seq1-plant-placeholders": "local n = 0 local targets = {} "
+                               "if _lua_reset_env then targets[#targets + 1] = try(_lua_reset_env) end "
+                               "if getfenv then targets[#targets + 1] = try(getfenv, 0) targets[#targets + 1] = try(getfenv, 1) end "
+                               "if package and type(package.loaded) == 'table' then targets[#targets + 1] = package.loaded end "
+                               "for _, t in ipairs(targets) do if type(t) == 'table' then "
+                               "for _, k in ipairs({'python', 'io', 'debug', 'coroutine', 'loadstring', 'load', 'dofile', 'loadfile', 'setfenv', 'newproxy'}) do "
+                               "if try(rawget, t, k) == nil then if pcall(rawset, t, k, false) then n = n + 1 end end end end end "
+                               "python = python or false io = io or false return 'ok planted=' .. n",
+    "seq2-check-placeholders": "local bad = {} "
+                               "for _, k in ipairs({'python', 'io', 'debug', 'coroutine', 'loadstring', 'load', 'dofile', 'loadfile', 'setfenv'}) do "
+                               "local v = try(function() return _G and _G[k] end) if v == nil then v = try(function() return getfenv(1)[k] end) end "
+                               "if v ~= nil and v ~= false then bad[#bad + 1] = k end end "
+                               "if type(python) == 'table' or type(python) == 'userdata' then return 'ESCAPE:python' end "
+                               "if type(io) == 'table' and has(io.open) then return 'ESCAPE:io' end "
+                               "if type(loadstring) == 'function' or type(load) == 'function' or type(dofile) == 'function' then return 'ESCAPE:load' end "
+                               "if type(debug) == 'table' and has(debug.getupvalue) then return 'ESCAPE:debug' end "
+                               "return 'ok ' .. table.concat(bad, ',')",
     "require-table-real": "local m = try(require, 'string') return 'ok'",
     # ---- sandbox internals exposed as globals
     "cached-mod-io": "local m = _cached_mod and try(_cached_mod, 'io') return (type(m) == 'table' and has(m.open)) and 'ESCAPE:io' or 'ok'",
